@@ -136,6 +136,23 @@ theorem connectionLost_clean (s : S) (c : Option Nat) (r : Option Bytes) (w : Op
       have hw' : s.wasClean = false := by simpa using hw
       split at h <;> split at h <;> (try split at h) <;> (try split at h) <;> (try split at h) <;> simp_all [S.emit]
 
+/-- … and at that moment nothing we produced is still waiting in the send queue (repair 4456518b): a clean report
+means every octet handed to `sendData` before — our close frame is among them (`J`) — has been handed to the transport
+or the queue was flushed by the orderly drop (repair 1d0700cf, `flushQueue`) -/
+theorem clean_report_nothing_unsent (s : S) (c : Option Nat) (r : Option Bytes) (w : Option NCR)
+    (h : Out.onClose true c r w ∈ (connectionLost s).log) (hnew : Out.onClose true c r w ∉ s.log) :
+    s.sendQueue = [] := by
+  unfold connectionLost at h
+  split at h
+  · exact absurd h hnew
+  · unfold reportClose unsentUnclean markClosed cancelOnLost at h
+    cases hq : s.sendQueue with
+    | nil => rfl
+    | cons b q =>
+      exfalso
+      split at h <;> split at h <;> (try split at h) <;> (try split at h) <;> (try split at h) <;>
+        simp_all [S.emit]
+
 /-- the invariant: `J`, and every clean report so far came with our close frame sent -/
 def K (s : S) : Prop := J s ∧ ∀ c r w, Out.onClose true c r w ∈ s.log → s.closeSent ≠ []
 
